@@ -254,7 +254,7 @@ def r10_1(ctx):
         c = repo.func(f"{ASH}:AshProtocol.close")
         px = PX(repo, models=fut_models(set()), inline=inline_ash(stop=("_write_frame",)))
         for p in px.explore(c, lambda: (self_obj(ash_cls(ctx), {"_transport": Obj(TypeRef("Transport"), {}, tag="tr"), "_pending_data_frames": {1: fut("p1")}}), {})):
-            ok = "p1.set_exception" in [e.callee for e in completions(p)] and any(e.kind == "call" and e.what == "self._transport.close" for e in p.events)
+            ok = "p1.set_exception" in [e.callee for e in completions(p)] and any(e.kind == "call" and (e.callee == "tr.close" or e.what == "self._transport.close") for e in p.events)
             ctx.require(ok, "ash:close", "AshProtocol.close does not release pending sends and close the transport", func=c, trace=p.trace())
 
 
@@ -424,7 +424,7 @@ def r10_3(ctx):
                 recv = {"ash": ash, "gw": gw}[who]
                 f = recv.cls.method(meth)
                 px.top_frame = None
-                return px.call_function(f, recv, [], args(), None)
+                return px.call_function(f, recv, [], args(), None, top=True)
 
             for p in px._run(entry):
                 ctx.paths += 1
